@@ -63,8 +63,11 @@ def build_table(path, maxlen):
 
 
 def rand_series(rng, n):
-    kind = rng.integers(10)
-    if kind == 8:        # a large first sample followed by movements far below its ulp (x - x[0] is not exact)
+    kind = rng.integers(11)
+    if kind == 10:       # small wiggles next to a single enormous excursion (steps spanning more than 160 decades in ONE series)
+        x = rng.standard_normal(n) * 10.0 ** rng.choice([-6.0, -9.0, -90.0])
+        x[int(rng.integers(n))] = float(rng.choice([1e155, -3e158, 4e75, 1e160]))
+    elif kind == 8:        # a large first sample followed by movements far below its ulp (x - x[0] is not exact)
         x = rng.standard_normal(n) * 10.0 ** rng.uniform(-17, -9)
         x[0] = float(rng.choice([1.0, -1.0, 1e9, -3.7e5]))
         if rng.integers(2):
@@ -110,6 +113,10 @@ def build_traces(path, tier, seed):
     for tid in range(1, nrec + 1):
         n = gen.length(rng, 2, nmax)
         x = rand_series(rng, n)
+        if tid == nrec:
+            # one very long series with more than 10 000 turning points
+            n = 16000 if tier == "quick" else 31000        # (two thirds of the samples of white noise are turning points)
+            x = rng.standard_normal(n)
         arg = x if tid % 4 else x.tolist()
         if tid % 5 == 2:
             # narrow containers: 24-bit digitiser counts as int32 (products of differences exceed 2^31), int16, float32
@@ -121,6 +128,22 @@ def build_traces(path, tier, seed):
                 arg[-1] = arg[0] + 1
             x = np.asarray(arg, dtype=float)
         allp, mx, mn, co, cp = impl(arg)
+        if rng.integers(5) == 0 and n >= 4 and isinstance(arg, (np.ndarray, list)):
+            # history: the caller's container was analysed, then EDITED IN PLACE, and the selections are asked for first
+            from eqsig.fns import peaks_and_crossings as pc2_
+            k_ = int(rng.integers(1, n - 1))
+            if isinstance(arg, list):
+                arg[k_] = arg[k_] + (abs(arg[k_]) + 1.0) * 3
+                arg.reverse()
+            else:
+                arg[k_:] = arg[k_:][::-1].copy()
+                arg[k_] = arg[k_] + (abs(float(arg[k_])) + 1) * (3 if arg.dtype.kind == "f" else 1)
+            if np.all(np.asarray(arg) == np.asarray(arg)[0]):
+                arg[-1] = arg[0] + 1
+            mx = pc2_.get_peak_array_indices(arg, ptype='max')
+            mn = pc2_.get_peak_array_indices(arg, ptype='min')
+            allp, _, _, co, cp = impl(arg)
+            x = np.asarray(arg, dtype=float)
         if tid % 6 == 3 and not np.any(np.diff(np.asarray(arg, dtype=float)) == 0):
             from eqsig.fns import peaks_and_crossings as pc_
             allp = pc_.determine_indices_of_peaks_for_cleaned_array(arg)            # plateau-free: the cleaned-array entry point
